@@ -131,7 +131,9 @@ Section Crypto.
   (* Verify: algorithm-code gate, then the library's verification of sig.Raw() *)
   Definition verifier_verify (v : verifier) (msg sig : bstr) : outcome bool :=
     if sig_code sig =? sig_alg_code (v_alg v)
-    then bind (sig_raw sig) (fun r => Ret (raw_verify (v_alg v) (verifier_key v) msg r))
+    then bind (sig_size sig) (fun n => bind (sig_raw sig) (fun r =>
+           (* the declared size must be the size of the raw signature that follows *)
+           if n =? N.of_nat (length r) then Ret (raw_verify (v_alg v) (verifier_key v) msg r) else Ret false))
     else Ret false.
 
   (* verifier.Parse(str) = Decode(did.Parse(str).Bytes());  v.DID().String() *)
@@ -311,7 +313,7 @@ Section Crypto.
   Theorem verifier_verify_total v msg sig : exists r, verifier_verify v msg sig = Ret r.
   Proof.
     unfold verifier_verify. destruct (sig_code sig =? _); [|eexists; reflexivity].
-    rewrite sig_raw_total. cbn [bind]. eexists; reflexivity.
+    rewrite sig_size_total, sig_raw_total. cbn [bind]. destruct (_ =? _); eexists; reflexivity.
   Qed.
 
   (* Wrap changes only the DID *)
@@ -489,14 +491,16 @@ Section Crypto.
      own key's signature of exactly this message *)
   Theorem verify_only_own a k m s : kvalid a k = true ->
     (verifier_verify (verifier_of a k) m s = Ret true <->
-     sig_code s = sig_alg_code a /\ sig_raw_v s = raw_sig a k m).
+     sig_code s = sig_alg_code a /\ sig_size_v s = N.of_nat (length (sig_raw_v s)) /\ sig_raw_v s = raw_sig a k m).
   Proof.
-    intros Hk. unfold verifier_verify. rewrite sig_raw_total. cbn [bind].
+    intros Hk. unfold verifier_verify. rewrite sig_size_total, sig_raw_total. cbn [bind].
     rewrite verifier_key_of. cbn [verifier_of v_alg].
     destruct (sig_code s =? sig_alg_code a) eqn:Ec.
-    - apply N.eqb_eq in Ec. split.
-      + intros H. inversion H as [H']. apply sig_unforgeable in H'; [|exact Hk]. auto.
-      + intros [_ H]. f_equal. apply sig_unforgeable; assumption.
+    - apply N.eqb_eq in Ec. destruct (sig_size_v s =? N.of_nat (length (sig_raw_v s))) eqn:Es.
+      + apply N.eqb_eq in Es. split.
+        * intros H. inversion H as [H']. apply sig_unforgeable in H'; [|exact Hk]. auto.
+        * intros [_ [_ H]]. f_equal. apply sig_unforgeable; assumption.
+      + apply N.eqb_neq in Es. split; [discriminate|]. intros [_ [H _]]. contradiction.
     - apply N.eqb_neq in Ec. split; [discriminate|]. intros [H _]. contradiction.
   Qed.
 
@@ -509,9 +513,10 @@ Section Crypto.
     intros Hk Hk' Hfit. rewrite signer_sign_of by exact Hk'.
     rewrite verify_only_own by exact Hk.
     rewrite sig_code_new by apply sig_alg_code_lt.
+    rewrite sig_size_v_new by (try apply sig_alg_code_lt; exact Hfit).
     rewrite sig_raw_v_new by (try apply sig_alg_code_lt; exact Hfit).
     split.
-    - intros [Hc Hr]. apply sig_alg_code_inj in Hc. subst a'.
+    - intros [Hc [_ Hr]]. apply sig_alg_code_inj in Hc. subst a'.
       apply raw_sig_inj in Hr; try assumption. destruct Hr; subst. auto.
     - intros [-> [-> ->]]. auto.
   Qed.
